@@ -1,4 +1,5 @@
 """C18 — lazily cached decodings: static obligations of the publish-once protocol."""
+import collections
 from ..facts import callee_is, op_local, op_place, fmt_place, FactError
 from ..analysis import (result_edges, rv_places, backward_slice, forward_derived, enum_variant_of_operand, discr_switches_on,
                         switch_edges)
@@ -381,4 +382,49 @@ def r18_6(ctx):
     ctx.ob("R18.6", "publication-only-by-compare-exchange", n == 0, "", f"{cas} compare-exchange publication sites, {n} unconditional stores/swaps on AtomicPtr caches")
 
 
-RULES = [("R18.1", r18_1), ("R18.2", r18_2), ("R18.3", r18_3), ("R18.4", r18_4), ("R18.5", r18_5), ("R18.6", r18_6)]
+REFCOUNT_AUDIT = {
+    # (function, primitive): sites audited.  Acquire = the cache gains an owner; release = it loses one.
+    ("Inner::parse_from", "into_raw"): (1, "acquire", "the winner's Arc becomes the published pointer"),
+    ("Inner::parse_from", "decrement_strong_count"): (1, "release", "the loser gives its own Arc back"),
+    ("Inner as core::clone::Clone>::clone", "increment_strong_count"): (1, "acquire", "a clone is one more owner of the published decoding"),
+    ("Inner as core::ops::drop::Drop>::drop", "decrement_strong_count"): (1, "release", "each owner gives its share back exactly once"),
+    ("LazyRaw::load", "into_raw"): (1, "acquire", "the winner's Box becomes the published pointer"),
+    ("LazyRaw::load", "from_raw"): (1, "release", "the loser frees its own Box"),
+    ("LazyRaw::parse", "from_raw"): (1, "release", "&mut self: the cached Box is taken back and consumed"),
+    ("LazyRaw as core::ops::drop::Drop>::drop", "from_raw"): (1, "release", "the owner frees the published Box"),
+}
+REFCOUNT_PRIMS = ("increment_strong_count", "decrement_strong_count", "from_raw", "into_raw", "forget", "leak")
+
+
+def _sh(fid):
+    from .c01 import short as _s
+    return _s(fid)
+
+
+def r18_7(ctx):
+    """reference-count balance of the publish-once caches: owners are gained and lost only at the audited sites (publisher,
+    Clone, Drop); an extra acquire leaks the decoding, an extra release frees it under a reader"""
+    prog = ctx.prog()
+    cnt = collections.Counter()
+    where = {}
+    for f in prog.fns.values():
+        if f.crate != "sonic_rs" or "lazyvalue::" not in f.id:
+            continue
+        owner = prog.fns.get(f.parent_fn, f) if f.parent_fn else f
+        for b, t in f.calls():
+            nm = t["callee"].rsplit("::", 1)[-1]
+            if nm in REFCOUNT_PRIMS and any(x in t["callee"] for x in ("sync::Arc", "boxed::Box", "mem::forget", "ManuallyDrop")):
+                key = (owner.id, nm)
+                cnt[key] += 1
+                where.setdefault(key, f.loc(t["ln"]))
+    ctx.floor("R18.7", "ownership primitives in the lazy caches", sum(cnt.values()), 6)
+    for (fid, nm), c in sorted(cnt.items()):
+        hit = [(k, v) for k, v in REFCOUNT_AUDIT.items() if fid.endswith(k[0]) and k[1] == nm]
+        allowed = hit[0][1][0] if hit else 0
+        kind = hit[0][1][1] if hit else ("acquire" if nm in ("increment_strong_count", "into_raw", "forget", "leak") else "release")
+        ctx.ob("R18.7", f"{_sh(fid)}:{nm}", c <= allowed, where[(fid, nm)],
+               f"{c} {kind} site(s), audited {allowed}: {hit[0][1][2]}" if hit and c <= allowed else
+               f"{c} {nm} site(s) in {_sh(fid)}, {allowed} audited: " + ("the cache gains an owner that no Drop gives back (the decoding is never freed)" if kind == "acquire" else "an owner is given back twice (the decoding is freed under a reader)"))
+
+
+RULES = [("R18.1", r18_1), ("R18.2", r18_2), ("R18.3", r18_3), ("R18.4", r18_4), ("R18.5", r18_5), ("R18.6", r18_6), ("R18.7", r18_7)]
